@@ -222,6 +222,11 @@ def _c21():
     q('tagged_T2_n2_ops1_K4', 1, 2, 4, 2, 1)
     q('cached_freelist_T2_n1_ops1_K3', 2, 2, 3, 1, 1, unwind_fn={'h_check': 6, r'CachedFreeList.*3getEv': 6}, coro_style='guard')
     q('cached_freelist_T2_n2_ops1_K4', 2, 2, 4, 2, 1, unwind_fn={'h_check': 6, r'CachedFreeList.*3getEv': 6}, coro_style='guard', tiers=('thorough',), timeout=3000)
+    # both threads put (concrete step kinds; ownership and schedule symbolic): thread ids 2 and 3 hash to the same cache cell (murmur & 3 == 0),
+    # so this is the query in which two put() calls race for one cache cell; script 0/1/2 = get||get, put||get, get||put
+    for sc in (3, 0, 1, 2):
+        q('cached_freelist_T2_n2_ops1_K4_script%d' % sc, 2, 2, 4, 2, 1, script=sc, unwind_fn={'h_check': 6, r'CachedFreeList.*3getEv': 6}, coro_style='guard',
+          tiers=('quick', 'thorough') if sc == 3 else ('thorough',), timeout=1500)
     # two steps per thread: the 16 step-kind combinations are separate queries (concrete kinds keep symex small); initial ownership and schedule stay symbolic
     for sc in range(16):
         q('freelist_T2_n2_ops2_K4_script%d' % sc, 0, 2, 4, 2, 2, script=sc, tiers=('quick', 'thorough') if sc in (0, 1, 4, 6, 9) else ('thorough',))
@@ -234,7 +239,7 @@ CHECKS['C21'] = {
                 'sequential consistency only: weakening a memory_order is not detectable',
                 'compare_exchange_weak never fails spuriously', 'ABA through re-allocation of node memory (nodes are static; re-insertion of the SAME node is covered)'],
     'assumptions': ['context switches only immediately before atomic operations (DRF-SC)',
-                    'std::this_thread::get_id() is the harness thread number; std::_Hash_bytes is the libstdc++ murmur implementation (prelude.h)'],
+                    'std::this_thread::get_id() is the harness thread number + 1; std::_Hash_bytes is the libstdc++ murmur implementation (prelude.h): threads 1 and 2 both map to cache cell 0 of CachedFreeList<.,4,.> (colliding threads; non-colliding threads are not explored)'],
 }
 
 
